@@ -1340,6 +1340,21 @@ class Checker:
                                  dict(self.case, entry=k))
                 return
         rec.case()
+        # A refused save (unknown file extension -> ValueError, documented)
+        # of a survey/simulation must not influence what later saves of the
+        # same object contain.
+        for k, v in payload.items():
+            if hasattr(v, 'to_file') and (self.case.get('i', 0) % 2 == 0):
+                kw = {'what': 'plain'} if hasattr(v, 'clean') else {}
+                try:
+                    with Quiet():
+                        v.to_file(self.fname('h5')[:-3] + '.unsupported',
+                                  verb=0, **kw)
+                    rec.event('refused_save_not_refused')
+                except ValueError:
+                    rec.event('refused_saves_before_save')
+                except Exception:  # noqa - other errors: not our business
+                    rec.event('refused_save_other_error')
         saved, errs = {}, {}
         for fmt in FORMATS:
             fn = self.fname(fmt)
